@@ -123,27 +123,43 @@ def run(ctx, model_ok):
             exp = ("N", None, Fraction(0) if conv == 0 else Fraction(a) / conv)
             kl = "ratio"
         cases.append({"text": text, "expect": exp, "klass": kl, "scale": max(abs(float(Fraction(a))), abs(float(Fraction(b))))})
-    # histories of rate updates
+    # histories of rate updates: every evaluation involves a currency whose rate was written
     hist_cases = []
-    for _ in range(ctx.n(60, 2000)):
+    unrated = sorted(k.upper() for k in cur if cur[k]["code"] not in rates)[:40]
+    for _ in range(ctx.n(120, 4000)):
         cur_rates = dict(rates)
         ops = []
-        checks = []
-        for _ in range(rng.randint(1, 6)):
-            if rng.random() < 0.5:
-                code = rng.choice(codes)
-                name = rng.choice([code.lower(), code.upper()] + [n for n, t in alias.items() if t == code.lower()] + ["zzz", "", "us"])
-                v = rng.choice(["2", "0.5", "123.456", "1", "0.0001", "1000000"])
+        touched = []
+        for _ in range(rng.randint(2, 8)):
+            if rng.random() < 0.45 or not touched:
+                code = rng.choice(touched) if touched and rng.random() < 0.35 else (rng.choice(unrated) if rng.random() < 0.1 else ("USD" if rng.random() < 0.15 else rng.choice(codes)))
+                names = [code.lower(), code.upper()] + [n for n, t in alias.items() if t == code.lower()]
+                name = rng.choice(names) if rng.random() < 0.85 else rng.choice(["zzz", "", "us", "dollars"])
+                v = rng.choice(["2", "0.5", "123.456", "1", "0.0001", "1000000", "3", "7.25"])
                 target = read_currency(name)
                 ops.append({"op": "rate", "cur": name, "v": v, "code": target, "expect_ret": target is not None})
                 if target is not None:
                     cur_rates[target] = Fraction(v)
+                    if target not in touched:
+                        touched.append(target)
             else:
-                A, B = rng.choice(codes), rng.choice(codes)
-                amt = rng.choice(["1", "100", "12.5"])
-                ops.append({"op": "exec", "lang": "en", "text": f"{O.dec(amt)} {A.lower()} to {B.lower()}",
-                            "expect": ("M", B, Fraction(amt) * cur_rates.get(B, 0) / cur_rates[A] if cur_rates[A] != 0 else Fraction(0)), "scale": float(Fraction(amt))})
-        # a rate written for a currency WITHOUT a configured rate must also take effect
+                X = rng.choice(touched)
+                Y = rng.choice([c for c in codes if c in cur_rates] + touched)
+                A, B = (X, Y) if rng.random() < 0.5 else (Y, X)
+                amt, amt2 = rng.choice(["1", "100", "12.5"]), rng.choice(["3", "40", "0.75"])
+                k = rng.random()
+                if k < 0.5:
+                    text = f"{O.dec(amt)} {A.lower()} to {B.lower()}"
+                    exp = ("M", B, Fraction(amt) * cur_rates[B] / cur_rates[A])
+                elif k < 0.8:
+                    op = rng.choice("+-")
+                    text = f"{O.dec(amt)} {A.lower()} {op} {O.dec(amt2)} {B.lower()}"
+                    conv = Fraction(amt2) * cur_rates[A] / cur_rates[B]
+                    exp = ("M", A, Fraction(amt) + conv if op == "+" else Fraction(amt) - conv)
+                else:
+                    text = f"{O.dec(amt)} {A.lower()} / {O.dec(amt2)} {B.lower()}"
+                    exp = ("N", None, Fraction(amt) / (Fraction(amt2) * cur_rates[A] / cur_rates[B]))
+                ops.append({"op": "exec", "lang": "en", "text": text, "expect": exp, "scale": float(Fraction(amt))})
         hist_cases.append(ops)
 
     # ---- run plain cases
